@@ -98,9 +98,16 @@ def complex_cases(draw):
     def operand():
         if all_real or draw(st.integers(0, 2)) > 0:
             return R.real(draw(st.integers(0, 2)))
-        k = draw(st.sampled_from(["any", "partial", "partial", "sqrt", "fpow"]))
+        k = draw(st.sampled_from(["any", "partial", "partial", "sqrt", "fpow", "mixedcond", "mixedcond"]))
         if k == "any":
             return R.any(draw(st.integers(1, 2)))
+        if k == "mixedcond":
+            # a conditional whose branches are of different kinds: real on one side, possibly complex on the other
+            c = [draw(st.sampled_from(["lt", "gt"])), R.real(1), R.real(1)]
+            br = [R.real(1), R.any(1)]
+            if draw(st.booleans()):
+                br.reverse()
+            return ["cond", c, br[0], br[1]]
         r = R.real(1)
         if k == "partial":
             # real operand, but the function leaves the reals outside its real domain
